@@ -43,6 +43,9 @@ func init() {
 			{ID: "C14-R18", Title: "import statements always import", Floor: 2, Run: importStatementsAlwaysImport},
 			{ID: "C14-R19", Title: "shared state is enumerated (shared with C09-R18)", Floor: 1, Run: sharedStateIsEnumerated},
 			{ID: "C14-R20", Title: "a root is loaded only when it is asked for", Floor: 3, Run: rootsAreLoadedOnlyWhenAskedFor},
+			{ID: "C14-R21", Title: "a Config is applied to the VM as a whole (shared with C11-R24)", Floor: 3, Run: theConfigurationIsAppliedAsAWhole},
+			{ID: "C14-R22", Title: "walks of one list are paired by position", Floor: 1, Run: walksOfOneListArePairedByPosition},
+			{ID: "C14-R23", Title: "a verdict about a module names the module", Floor: 1, Run: verdictsAboutAModuleNameTheModule},
 		},
 	})
 }
